@@ -247,22 +247,35 @@ func (c *checkSchema) ensureShortcutKeysAreValid(node *ischema.ObjectNode) error
 }
 
 func actualRootType(s, root *ischema.ISchema) (json.Type, *errs.Err) {
-	return actualRootTypeVisited(s, root, make(map[*ischema.ISchema]struct{}, 2))
+	return actualRootTypeVisited(s, root, make(map[*ischema.ISchema]struct{}, 2), make(map[*ischema.ISchema]json.Type, 2))
 }
 
 func actualRootTypeVisited(
 	s, root *ischema.ISchema,
 	visited map[*ischema.ISchema]struct{},
-) (json.Type, *errs.Err) {
+	resolved map[*ischema.ISchema]json.Type,
+) (t json.Type, err *errs.Err) {
 	// A type defined through itself (@a: "@a | @b") has no actual root type;
 	// without this guard the resolution below never ends.
 	if _, ok := visited[s]; ok {
 		return json.TypeMixed, nil
 	}
+	// Every type is resolved once. (A type on a cycle resolves to "mixed" from
+	// wherever it is reached, so its answer does not depend on the path; following
+	// every path again took factorial time for a handful of types that all name
+	// each other.)
+	if t, ok := resolved[s]; ok {
+		return t, nil
+	}
 	visited[s] = struct{}{}
-	defer delete(visited, s) // only the current resolution path counts
+	defer func() {
+		delete(visited, s) // only the current resolution path counts
+		if err == nil {
+			resolved[s] = t
+		}
+	}()
 
-	t := s.RootNode().Type()
+	t = s.RootNode().Type()
 	if t != json.TypeMixed {
 		return t, nil
 	}
@@ -277,7 +290,7 @@ func actualRootTypeVisited(
 				// "type not found" is the answer, not "the key is not a string"
 				return json.TypeMixed, err
 			}
-			tt, err = actualRootTypeVisited(ss, root, visited)
+			tt, err = actualRootTypeVisited(ss, root, visited, resolved)
 			if err != nil {
 				return json.TypeMixed, err
 			}
